@@ -40,7 +40,7 @@
   Core Lean only.
 -/
 import PyProb.Properties.C01
-import PyProb.Properties.C05
+import PyProb.Properties.C05_bloom
 import PyProb.Properties.C11
 import PyProb.Lemmas.ExpandingCore
 
